@@ -39,6 +39,8 @@ CONSTANTS
   Threads,       \* adder goroutines
   MaxAdds, MaxEnds,
   AtomicAdd,     \* perChannelWriter.Add is one step
+  SplitGet,      \* getWriter itself is two steps: the RLock lookup, and (on a miss) the creation under pcw.mu.Lock
+  RecheckOnStore,\* ... which looks the channel up again before storing a new writer (the code: TRUE)
   StaleTimers    \* cancelled waitTimer goroutines stay in `tg` until they fire (no-op) or exit
 
 VARIABLES
@@ -144,7 +146,7 @@ Add(t, it) ==                                  \* AtomicAdd: getWriter + w.Add
   /\ UNCHANGED <<cfg, infl, nend>>
 
 GetWriter(t, it) ==
-  /\ ~AtomicAdd /\ infl[t].g = 0 /\ nadd < MaxAdds
+  /\ ~AtomicAdd /\ ~SplitGet /\ infl[t].g = 0 /\ nadd < MaxAdds
   /\ nadd' = nadd + 1
   /\ LET g == GetWriterG
          created == cur = 0
@@ -156,8 +158,31 @@ GetWriter(t, it) ==
                     orphan |-> FALSE, fl |-> FALSE, flushed |-> <<>>]
   /\ UNCHANGED <<cfg, tg, nend>>
 
+\* getWriter in its two critical sections.  Lookup: "RLock; w, exists := writers[ch]; RUnlock" (a miss is g = -1).
+\* Store: "Lock; [w, exists = writers[ch]; if !exists] { w = newChannelWriter; writers[ch] = w }; Unlock": without the
+\* re-check a writer stored by another goroutine meanwhile is overwritten and stays behind, unreachable from the map.
+Lookup(t, it) ==
+  /\ ~AtomicAdd /\ SplitGet /\ infl[t].g = 0 /\ nadd < MaxAdds
+  /\ nadd' = nadd + 1
+  /\ infl' = [infl EXCEPT ![t] = [g |-> IF cur = 0 THEN -1 ELSE cur, it |-> it]]
+  /\ UNCHANGED <<cfg, cur, w, tg, nend, ref>>
+  /\ step' = [act |-> "Lookup", t |-> t, item |-> it, gen |-> cur, created |-> FALSE, armed |-> FALSE,
+              orphan |-> FALSE, fl |-> FALSE, flushed |-> <<>>]
+
+Store(t) ==
+  /\ ~AtomicAdd /\ SplitGet /\ infl[t].g = -1
+  /\ LET reuse == RecheckOnStore /\ cur # 0
+         g == IF reuse THEN cur ELSE Len(w) + 1
+     IN /\ cur' = g
+        /\ w' = IF reuse THEN w ELSE Append(w, EmptyW)
+        /\ ref' = IF reuse THEN ref ELSE Append(ref, <<>>)
+        /\ infl' = [infl EXCEPT ![t].g = g]
+        /\ step' = [act |-> "Store", t |-> t, item |-> infl[t].it, gen |-> g, created |-> ~reuse, armed |-> FALSE,
+                    orphan |-> FALSE, fl |-> FALSE, flushed |-> <<>>]
+  /\ UNCHANGED <<cfg, tg, nadd, nend>>
+
 WAdd(t) ==
-  /\ ~AtomicAdd /\ infl[t].g # 0
+  /\ ~AtomicAdd /\ infl[t].g > 0
   /\ infl' = [infl EXCEPT ![t] = Idle]
   /\ cur' = cur
   /\ DoWAdd(infl[t].g, infl[t].it, w, ref, "WAdd", t, FALSE)
@@ -214,8 +239,8 @@ Close(fl) ==
   /\ UNCHANGED <<cfg, cur, infl, nadd>>
 
 Next ==
-  \/ \E t \in Threads, it \in Items(nadd + 1) : Add(t, it) \/ GetWriter(t, it)
-  \/ \E t \in Threads : WAdd(t)
+  \/ \E t \in Threads, it \in Items(nadd + 1) : Add(t, it) \/ GetWriter(t, it) \/ Lookup(t, it)
+  \/ \E t \in Threads : WAdd(t) \/ Store(t)
   \/ \E x \in tg : TimerFire(x) \/ TimerExit(x)
   \/ \E fl \in BOOLEAN : DelWriter(fl) \/ Close(fl)
 
@@ -262,6 +287,8 @@ PendingAgree == \A g \in 1..Len(w) : w[g].buf \o w[g].lat = Expected(ref[g])
 TimerSane == \A g \in 1..Len(w) :
                /\ (w[g].timer # 0) => (cfg.delay /\ Holds(w[g]) /\ [id |-> w[g].timer, g |-> g] \in tg)
                /\ (cfg.delay /\ Holds(w[g])) => w[g].timer # 0         \* nothing waits without a timer
+\* (configurations without removals) every buffered item sits in the writer the map reaches
+SingleWriter == \A g \in 1..Len(w) : (g # cur) => ~Holds(w[g])
 TypeOK == /\ cur \in 0..Len(w) /\ Len(ref) = Len(w) /\ nadd <= MaxAdds /\ nend <= MaxEnds
           /\ \A g \in 1..Len(w) : (g # cur /\ AtomicAdd) => ~Holds(w[g])
 
